@@ -11,7 +11,7 @@ import math
 import numpy as np
 from hypothesis import strategies as st
 
-from harness import build, gen
+from harness import reps, build, gen
 from harness import refmodel as rm
 
 RULE = (
@@ -1014,6 +1014,21 @@ def run_history(case, ctx, impls):
                 break
         if not ok:
             return
+        # a reconfiguration the setter is documented to reject (a non-float weight / a non-symmetric or complex weight
+        # matrix), caught by the caller: the loss keeps the weights it had
+        if reps.pick(repr(step_key(step)) + str(i), 3) == 0:
+            for impl in impls:
+                L = objs[impl][0]
+                if loss == "se":
+                    if no > 1:  # float, not symmetric
+                        bad = [np.arange(no * no, dtype=np.float64).reshape(no, no) + 1.0 for _ in range(ns)]
+                    else:  # complex
+                        bad = [np.ones((1, 1), dtype=np.complex128) for _ in range(ns)]
+                    ctx.raises((ValueError,), lambda: L.set_weight_matrices(bad), "rejected_weights:se")
+                else:
+                    bad = [1] + [2.0] * (ns - 1)
+                    ctx.raises((ValueError,), lambda: L.set_weights(bad), "rejected_weights:re")
+            ctx.label("after-rejected-reconfiguration")
         with np.errstate(all="ignore"):
             if loss == "se":
                 ref = ref_se(ps, Js, None, qs, intended)
